@@ -6,15 +6,18 @@ Dists == {"intersection", "jaccard"}
 Thr(dist) == IF dist = "intersection" THEN {<<1, 1>>, <<2, 1>>, <<3, 1>>}
              ELSE {<<1, 4>>, <<1, 3>>, <<1, 2>>, <<2, 3>>, <<1, 1>>}
 
-LineSymmetric == \A dist \in Dists, k, l \in Keys(st) :
+\* the edge sets are built from a pairwise relation; the invariants are stated on the relation
+Joined(dist, s, k, l) == k # l /\ QLe(s, LineSim(dist, k, l))
+LineEdgesIsJoined == \A dist \in Dists : \A s \in Thr(dist) :
+   LineEdges(st, dist, s) = {{p[1], p[2]} : p \in {p \in Keys(st) \X Keys(st) : Joined(dist, s, p[1], p[2])}}
+LineSymmetric == \A dist \in Dists : \A k, l \in Keys(st) :
    /\ LineSim(dist, k, l) = LineSim(dist, l, k)
-   /\ \A s \in Thr(dist) : ({k, l} \in LineEdges(st, dist, s)) <=> ({l, k} \in LineEdges(st, dist, s))
-   /\ {k} \notin LineEdges(st, dist, CHOOSE s \in Thr(dist) : TRUE)
+   /\ \A s \in Thr(dist) : Joined(dist, s, k, l) <=> Joined(dist, s, l, k)
 \* joined hyperedges always share a node: enumerating pairs through the per-node incident lists is complete
-LineViaSharedNode == \A dist \in Dists : \A s \in Thr(dist) : \A e \in LineEdges(st, dist, s) :
-   \E n \in st.nodes : \A k \in e : n \in KN(k)
-LineMonotone == \A dist \in Dists : \A s, u \in Thr(dist) :
-   QLe(s, u) => LineEdges(st, dist, u) \subseteq LineEdges(st, dist, s)
+LineViaSharedNode == \A dist \in Dists : \A s \in Thr(dist) : \A k, l \in Keys(st) :
+   Joined(dist, s, k, l) => KN(k) \cap KN(l) # {}
+LineMonotone == \A dist \in Dists : \A s, u \in Thr(dist) : \A k, l \in Keys(st) :
+   (QLe(s, u) /\ Joined(dist, u, k, l)) => Joined(dist, s, k, l)
 \* cross-check with C09: the 1-intersection line graph is the off-diagonal support of the dual adjacency
 LineOneIsDualSupport ==
    LineEdges(st, "intersection", <<1, 1>>) = {{k, l} : <<k, l>> \in {p \in Keys(st) \X Keys(st) : p[1] # p[2] /\ Dual(p[1], p[2]) = 1}}
@@ -35,13 +38,16 @@ SimplicialIdempotent ==
    /\ CliqueEdges(SimplicialState(st)) = CliqueEdges(st)
 
 (* directed *)
-DirLineNoSelfLoop == \A dist \in Dists : \A s \in Thr(dist), e \in Keys(st) : <<e, e>> \notin DirLineArcs(st, dist, s)
-DirLineMonotone == \A dist \in Dists : \A s, u \in Thr(dist) :
-   QLe(s, u) => DirLineArcs(st, dist, u) \subseteq DirLineArcs(st, dist, s)
+Arc(dist, s, e, f) == QLe(s, DirSim(dist, e, f))
+DirLineArcsIsArc == \A dist \in Dists : \A s \in Thr(dist) :
+   DirLineArcs(st, dist, s) = {p \in Keys(st) \X Keys(st) : Arc(dist, s, p[1], p[2])}
+DirLineNoSelfLoop == \A dist \in Dists : \A s \in Thr(dist), e \in Keys(st) : ~Arc(dist, s, e, e)
+DirLineMonotone == \A dist \in Dists : \A s, u \in Thr(dist) : \A e, f \in Keys(st) :
+   (QLe(s, u) /\ Arc(dist, u, e, f)) => Arc(dist, s, e, f)
 \* reversing every hyperedge reverses every arc
 Rev(k) == Key(k.t, k.s, k.x)
 DirLineReversal == \A dist \in Dists : \A s \in Thr(dist), e, f \in Keys(st) :
-   QLe(s, DirSim(dist, e, f)) <=> QLe(s, DirSim(dist, Rev(f), Rev(e)))
+   Arc(dist, s, e, f) <=> Arc(dist, s, Rev(f), Rev(e))
 DirSimBounded == \A e, f \in Keys(st) :
    LET j == DirSim("jaccard", e, f)  i == DirSim("intersection", e, f)
    IN 0 <= j[1] /\ j[1] <= j[2] /\ j[2] > 0 /\ i[1] <= Cardinality(e.t) /\ i[1] <= Cardinality(f.s)
